@@ -2280,6 +2280,10 @@ def _verify_dominances_hyperparameters(dominances, dominance_type,
         raise ValueError("%s dominance constraint's dimensions must be "
                          "monotonic. Dimension %d is not monotonic." %
                          (dominance_type.capitalize(), dim))
+    if dominant_dim == weak_dim:
+      raise ValueError("%s dominance constraint must name two different "
+                       "dimensions. Seeing constraint tuple %s" %
+                       (dominance_type.capitalize(), constraint))
     # TODO: Determine partial ordering of features by dominance and
     # detect any inconsistencies.
     if (weak_dim, dominant_dim) in dim_pairs:
@@ -2441,6 +2445,10 @@ def verify_hyperparameters(lattice_sizes,
       if not isinstance(dim1, int) or not isinstance(dim2, int):
         raise ValueError("Joint monotonicity constraint dimensions must be "
                          "integers. Seeing dimensions %s, %s" % (dim1, dim2))
+      if dim1 == dim2:
+        raise ValueError("Joint monotonicity constraint must name two distinct "
+                         "dimensions. Seeing constraint tuple %s" %
+                         (constraint,))
 
   if joint_unimodalities is not None:
     for single_constraint in joint_unimodalities:
